@@ -174,7 +174,8 @@ class Registrations(Part):
             # the session has already encoded and decoded ordinary traffic (controls, filters, credentials of the
             # built-in kinds) before anything is registered: lookup tables built lazily must not go stale
             ctx.event("warm-session")
-            ctrl = [("generic", "1.2.3.4.5", False, b"x"), ("paged", False, 1, b"")]
+            # (incl. a control that carries the custom control's OID while it is still an unknown type)
+            ctrl = [("generic", "1.2.3.4.5", False, b"x"), ("paged", False, 1, b""), ("generic", custom.OID_CUSTOM_CONTROL, False, (7).to_bytes(4, "big"))]
             if side == "server":
                 for mid, m in enumerate([history.peer_message("searchRequest", 901, 0, 0), history.peer_message("extendedReq", 902, 0, 0)]):
                     m["controls"] = ctrl
